@@ -583,21 +583,10 @@ impl Runtype {
                                 match obj_kvs.iter_mut().find(|(k2, _)| k2 == k) {
                                     Some((_, prev)) => {
                                         if prev != v {
-                                            // an optional property also admits null and undefined at run time: that part
-                                            // of the optional side takes part in the intersection with a required side
-                                            let side = |it: &Optionality<Runtype>, other: &Optionality<Runtype>| {
-                                                if !it.is_required() && other.is_required() {
-                                                    Runtype::any_of(vec![
-                                                        it.inner().clone(),
-                                                        Runtype::new(RuntypeKind::Null),
-                                                        Runtype::new(RuntypeKind::Undefined),
-                                                    ])
-                                                } else {
-                                                    it.inner().clone()
-                                                }
-                                            };
-                                            let both =
-                                                Runtype::all_of(vec![side(prev, v), side(v, prev)]);
+                                            let both = Runtype::all_of(vec![
+                                                prev.inner().clone(),
+                                                v.inner().clone(),
+                                            ]);
                                             *prev = if prev.is_required() || v.is_required() {
                                                 Optionality::Required(both)
                                             } else {
